@@ -3,4 +3,5 @@ From Coq Require Import ExtrOcamlBasic.
 From RM Require Import C16.Model C16.Shared C16.Driver.
 Extraction "c16_model.ml" script_events init_fs mk_env lookup o_result o_log o_cache o_tmp o_cdir o_fs line_class o_pending o_cur take_events ev_drop P0 mkserver
   sh_init sh_start sh_net sh_begin sh_cache sh_ntmp sh_result sh_fs
-  stream_run stream_lookup resp_of fs_cache fs_tmp fs_cdir.
+  stream_run stream_lookup resp_of fs_cache fs_tmp fs_cdir
+  file_lookup q_result q_olog q_ofs q_pending q_cur.
